@@ -209,9 +209,14 @@ def scan_float(bs):
 
 
 # ------------------------------------------------------------------------- models ---
+ERANGE = 34      # <errno.h> of x86-64 Linux
+
+
 def make_models(int_value=None, on_float=None, extra=None):
     """libc models.  int_value(it, ctx, text, base, value) -> value to return from strtoul & co
     (default: the concrete value saturated to 64 bits).  on_float(it, ctx, fname, text) -> value."""
+
+    errno_cell = {'v': 0}
 
     def m_strlen(it, ctx, n, a):
         return len(cbytes(a[0]))
@@ -293,12 +298,19 @@ def make_models(int_value=None, on_float=None, extra=None):
             v, k = scan_strtoul(bs, base)
             set_out(it, a[1], advance(a[0], k))
             ctx.emit('strtoint', n.callee(), ''.join(chr(b) for b in bs[:k]), base)
+            # ISO C 7.22.1.4p8: a correct value outside the range of representable values sets errno to ERANGE
+            if (v >= (1 << 63) or v < -(1 << 63)) if signed else v >= (1 << 64):
+                errno_cell['v'] = ERANGE
             if int_value is not None:
                 return int_value(it, ctx, ''.join(chr(b) for b in bs[:k]), base, v)
             if signed:
                 return max(-(1 << 63), min((1 << 63) - 1, v))
             return min(v, (1 << 64) - 1) if v >= 0 else (v & ((1 << 64) - 1))
         return m
+
+    def m_errno(it, ctx, n, a):
+        # `errno` is (*__errno_location()) in glibc: one int object per set of models (the runs of this module do not fork on it)
+        return _Ref(VarPlace(errno_cell, 'v'))
 
     def _strtofloat(fname):
         def m(it, ctx, n, a):
@@ -445,11 +457,36 @@ def make_models(int_value=None, on_float=None, extra=None):
         'memcmp': m_memcmp, 'strchr': m_strchr, 'memchr': m_memchr, 'strstr': m_strstr, '__ctype_b_loc': m_ctype,
         'strtoul': _strtoint(False), 'strtoull': _strtoint(False), 'strtol': _strtoint(True), 'strtoll': _strtoint(True),
         'strtold': _strtofloat('strtold'), 'strtod': _strtofloat('strtod'), 'strtof': _strtofloat('strtof'),
-        'calloc': m_calloc, 'malloc': m_calloc, 'realloc': m_realloc, 'memcpy': m_memcpy,
+        'calloc': m_calloc, 'malloc': m_calloc, 'realloc': m_realloc, 'memcpy': m_memcpy, '__errno_location': m_errno,
     }
     if extra:
         models.update(extra)
     return models
+
+
+_PRINTERS = {}
+DIAG_UNIT = 'tokenize.c'
+DIAG_CORE = 'verror_at'
+
+
+def diagnostic_printers(P):
+    """functions of tokenize.c that print through verror_at and return to their caller (warn_tok and whatever is added beside it);
+    error/error_at/error_tok end the run and are the interpreter's noreturn functions"""
+    k = id(P)
+    if k not in _PRINTERS:
+        out = []
+        try:
+            u = P.unit(DIAG_UNIT)
+        except AnalysisBroken:
+            u = None
+        if u is not None:
+            for f, fd in sorted(u.functions.items()):
+                if f in ('error', 'error_at', 'error_tok', DIAG_CORE):
+                    continue
+                if fd.calls(DIAG_CORE) and not fd.calls({'exit', '_exit', 'abort'}):
+                    out.append(f)
+        _PRINTERS[k] = out
+    return list(_PRINTERS[k])
 
 
 class CInterp(Interp):
@@ -457,6 +494,13 @@ class CInterp(Interp):
     enum table does not know them)."""
 
     crashes = None
+
+    def __init__(self, program, unit, cfg=None):
+        # functions that print a diagnostic and RETURN (warn_tok) are not followed (they format with <stdarg.h> and write to a stream):
+        # their calls are recorded as ('call', name, ...) events and leave the run as it is
+        cfg = dict(cfg or {})
+        cfg['opaque'] = list(cfg.get('opaque', ())) + diagnostic_printers(program)
+        Interp.__init__(self, program, unit, cfg)
 
     def deref_target(self, b, n):
         c = b
